@@ -11,6 +11,13 @@ CHECKS = {
    note="Trusts the independent response parser and the body-program model in harness/src/{httpwire,h1engine}.rs. Only the last request of a pipeline may close, leave its body unread or fail its body (C03 owns close discipline). Handler misuse outside documented contracts (both framing headers set by hand, BodySize::None with a body status) is outside the domain. Listed findings exclude their class by construction (counted).",
    technique="property-based testing against an independent reference parser + per-request metamorphic (solo vs pipelined) relation",
    design_ref="DESIGN.md §5 C02"),
+ "C03": dict(
+   engine="simnet",
+   category="exploration",
+   text="Generated pipelines (1-5 requests whose bodies look like requests) x handler programs that read none/part/all of the body, hold it, drop it, echo it, fail, respond early or late x keep-alive off/OS/timeout x half-close allowed or not x disconnect timeout 0/200/1000 ms x arrival class of every following request and of every remaining body part (already pipelined / after a delay / only after the previous response is completely on the wire) x optional malformed tail with an attack suffix, run on the real dispatcher over the scripted socket. The wire is decoded by the independent response parser; the first response that ends the connection (Connection: close, HTTP/1.0 without keep-alive, close-delimited, server-made 4xx/500, or written while the request body was unread and undrainable) must be the last thing written and its request the last one dispatched, the socket must be shut down within the disconnect timeout, and every dispatched request must be the stream's own next request with its exact body (no body byte is ever parsed as a request). ~4*10^5 (quick) to 6*10^6 (thorough) cases.",
+   note="Trusts the response parser and the drainability model (a chunked body whose payload object was dropped may be drained to its end); two listed findings (requests already sent when the closing response completed are still served; close + dropped chunked body is drained and later requests served) skip exactly that sub-check for exactly that input class, counted in evidence.",
+   technique="property-based testing with ground-truth request lists + invariant over the wire history (nothing written/dispatched after the closing response), proptest over scripted schedules",
+   design_ref="DESIGN.md §5 C03"),
  "C01": dict(
    engine="simnet",
    category="exploration",
